@@ -23,7 +23,8 @@ fi
 # complete only for data-race-free code).
 case "$ID" in C05|C09|C10|C14|C17|C18)
   ITER=60; [ "$TIER" = thorough ] && ITER=600
-  if (cd "$ROOT/engine" && GOFLAGS=-mod=mod GOPROXY=off GOSUMDB=off GOTOOLCHAIN=local go build -race -o "$TMP/racepass" ./cmd/racepass) >"$TMP/race-build.log" 2>&1; then
+  ENG="$ROOT/engine"; [ -d "$TMP/engine" ] && ENG="$TMP/engine"
+  if (cd "$ENG" && GOFLAGS=-mod=mod GOPROXY=off GOSUMDB=off GOTOOLCHAIN=local go build -race -o "$TMP/racepass" ./cmd/racepass) >"$TMP/race-build.log" 2>&1; then
     RA="$(GORACE="halt_on_error=1 exitcode=66" timeout 300 "$TMP/racepass" $ITER 2>"$TMP/race.log" | tail -1)"
     RC=$?
     if grep -q "DATA RACE" "$TMP/race.log"; then
